@@ -268,6 +268,7 @@ func runC01Case(id string, c *c01Case) {
 		}
 	}
 	logStr := tr.LogString()
+	_, emissions := tr.WriteEmissions()
 	writes, _, _ := tr.Snapshot()
 	start := tr.StartBytes()
 	_ = d.Close()
@@ -288,8 +289,29 @@ func runC01Case(id string, c *c01Case) {
 	for _, w := range writes {
 		wl = append(wl, append([]byte("p"), w...))
 	}
-	cs.Obs = fmt.Sprintf("%s sync %s", strings.Join(outs, ","), hxList(wl))
+	cs.Obs = fmt.Sprintf("%s sync %s L", strings.Join(outs, ","), hxList(wl))
 	cs.Nontrivial = len(c.Cmds) > 1
+	// hypotheses of theorem C01_cli_alignment evaluated by the model on this case (small cases
+	// only: the check is quadratic in the stream length); escape atoms put a case outside them
+	total := len(start)
+	hasEsc := false
+	for _, e := range emissions {
+		total += len(e)
+		if bytes.IndexByte(e, 27) >= 0 {
+			hasEsc = true
+		}
+	}
+	if callErr == nil && len(emissions) == 2*len(c.Cmds) && total < 700 && !hasEsc {
+		var echos, resps, wants [][]byte
+		for i := range c.Cmds {
+			echos = append(echos, emissions[2*i])
+			resps = append(resps, emissions[2*i+1])
+			wants = append(wants, []byte(specResult(c.Outs[i], c.Prompt, c.NoStrip)))
+		}
+		cs.HypLine = fmt.Sprintf("c01hyp %d prompt_pattern %s %s %s %s %s %s %s", depth, hx([]byte("\n")), hx(start), "f"+flags,
+			hxStrs(c.Cmds), hxList(echos), hxList(resps), hxList(wants))
+	}
+	cs.HypOK = false
 	// ---- direct oracle
 	if callErr != nil {
 		cs.Oracle = "unexpected error: " + callErr.Error()
